@@ -107,8 +107,8 @@ func (nm *simNM) SetRole(version int64, role module.Role, peers ...module.PeerID
 	}
 }
 
-func (nm *simNM) GetPeersByRole(role module.Role) []module.PeerID { return nil }
-func (nm *simNM) AddRole(role module.Role, peers ...module.PeerID) {}
+func (nm *simNM) GetPeersByRole(role module.Role) []module.PeerID     { return nil }
+func (nm *simNM) AddRole(role module.Role, peers ...module.PeerID)    {}
 func (nm *simNM) RemoveRole(role module.Role, peers ...module.PeerID) {}
 func (nm *simNM) HasRole(role module.Role, id module.PeerID) bool {
 	s := nm.inc.s
@@ -116,9 +116,9 @@ func (nm *simNM) HasRole(role module.Role, id module.PeerID) bool {
 	defer s.mu.Unlock()
 	return nm.roles[string(id.Bytes())] == role
 }
-func (nm *simNM) Roles(id module.PeerID) []module.Role      { return nil }
-func (nm *simNM) SetTrustSeeds(seeds string)                {}
-func (nm *simNM) SetInitialRoles(roles ...module.Role)      {}
+func (nm *simNM) Roles(id module.PeerID) []module.Role { return nil }
+func (nm *simNM) SetTrustSeeds(seeds string)           {}
+func (nm *simNM) SetInitialRoles(roles ...module.Role) {}
 
 func (nm *simNM) handlerFor(proto, sub module.ProtocolInfo) *simPH {
 	for _, h := range nm.handlers {
